@@ -257,6 +257,15 @@ def _check_script_reader(ctx):
             else:
                 exp_elem = T.const(b)
                 exp_used = T.const(1)
+            # a length-checked read has exactly the requested length: LEN(read) may stand for the requested count
+            lens = {}
+            for k_ in known_at(facts2, ()):
+                if T.is_op(k_, 'EQ'):
+                    for x_, y_ in ((k_[2], k_[3]), (k_[3], k_[2])):
+                        if T.is_op(x_, 'LEN'):
+                            lens[x_] = y_
+            if lens:
+                cnt, consumed = T.subst(cnt, lens), T.subst(consumed, lens)
             same_term(ob, elem, exp_elem, 'first byte 0x%02x: parsed command' % b, where)
             same_term(oba, consumed, exp_used, 'first byte 0x%02x: bytes taken from the stream' % b, where)
             same_term(oba, cnt, exp_used, 'first byte 0x%02x: increment of the consumed-byte counter' % b, where)
